@@ -61,10 +61,10 @@ func (e *mscEnv) steps(c *corpus) []step {
 	h1 := e.header(g, mscGenesis+1, false)
 	h2 := e.header(h1, mscGenesis+2, false)
 	return []step{
-		{"msc: checkpoint trust root", func() []ctx {
+		{name: "msc: checkpoint trust root", build: func() []ctx {
 			return []ctx{ok(on.GenesisTx(c.vals, chMsc, e.rt.GenesisRaw(g, nil, nil, 0, ecommon.Address{})), "header_sync.syncGenesisHeader/msc")}
 		}},
-		{"msc: two sealed headers", func() []ctx {
+		{name: "msc: two sealed headers", build: func() []ctx {
 			return []ctx{ok(on.HeadersTx(chMsc, e.rt.Raw(h1), e.rt.Raw(h2)), "header_sync.syncBlockHeader/msc")}
 		}},
 	}
